@@ -29,6 +29,7 @@ type c17Params struct {
 	NShards   int      `json:"nshards"`
 	W         *wParams `json:"w,omitempty"`
 	Junk      bool     `json:"junk,omitempty"`
+	RelayHang bool     `json:"relay_hang,omitempty"` // the relay's own connector towards the server hangs: the client must fall back in-band after its grace period
 	JunkEarly bool     `json:"junk_early,omitempty"` // the in-band bytes arrive right after the ACT went out over the tunnel, before the CFG
 }
 
@@ -374,7 +375,10 @@ func c17WorldRun(j vs.Job, p c17Params) *vs.JobResult {
 		if v == "" && (p.Connector == "nil" || p.Connector == "dead") && bytes.Contains(res.TunC2S, []byte("#ACT:")) {
 			v = "the transfer used a tunnel although the connector was " + p.Connector
 		}
-		if v == "" && p.Connector == "ok" && res.Sched.Stall == 0 && !bytes.Contains(res.TunC2S, []byte("#ACT:")) {
+		if v == "" && p.RelayHang && bytes.Contains(res.TunC2S, []byte("#ACT:")) {
+			v = "the relay never completed the tunnel but the client used it"
+		}
+		if v == "" && p.Connector == "ok" && !p.RelayHang && res.Sched.Stall == 0 && !bytes.Contains(res.TunC2S, []byte("#ACT:")) {
 			v = "the genuine tunnel was available but the transfer went in-band"
 		}
 		x := &vs.ExecResult{Sched: res.Sched, Outcome: o, Violation: v, Detail: wp}
@@ -493,12 +497,24 @@ func init() {
 					for _, c := range []c17Params{
 						{Connector: "ok", Junk: true},
 						{Connector: "ok", JunkEarly: true},
+						{Connector: "ok", RelayHang: true},
 						{Connector: "nil"}, {Connector: "late"}, {Connector: "dead"},
 						{Connector: "ok", Attackers: []string{"wrong", "flood", "silent"}},
 					} {
 						if relays == 1 && len(c.Attackers) > 0 {
 							// through a relay the strangers of the direct case are replaced by one that dials the relay's own port
 							c.Attackers = []string{"relay-plus"}
+						}
+						if c.RelayHang {
+							if relays == 0 {
+								continue
+							}
+							hb := base
+							hb.RelayConnector = "hang"
+							c.Mode, c.W, c.Bound = "world", &hb, 0
+							c.Shard, c.NShards = 0, 1
+							jobs = append(jobs, vs.MkJob(fmt.Sprintf("world %s relays=%d relay connector hangs", dir, relays), c))
+							continue
 						}
 						c.Mode, c.W, c.Bound = "world", &base, 1
 						n := 4
